@@ -62,7 +62,9 @@ func (*prop) Cases(seed int64, tier string) []core.Case {
 const mod = "example.com/c18"
 
 var fieldTypes = []string{"int", "string", "bool", "float64", "uint8", "int64", "[]string", "[]int", "[]byte", "map[string]int", "map[string]string", "map[int][]string", "*int", "*string", "*Inner", "Inner", "[]Inner", "map[string]Inner", "[3]int",
-	"time.Time", "time.Duration", "*time.Time", "other.Thing", "*other.Thing", "[]other.Thing", "map[other.Key]other.Thing", "error", "any", "interface{}", "io.Reader", "fmt.Stringer", "Label", "[]Label", "map[Label]int", "Label", "Label", "error", "other.Thing"}
+	"time.Time", "time.Duration", "*time.Time", "other.Thing", "*other.Thing", "[]other.Thing", "map[other.Key]other.Thing", "error", "any", "interface{}", "io.Reader", "fmt.Stringer", "Label", "[]Label", "map[Label]int", "Label", "Label", "error", "other.Thing",
+	// a package whose name (meta) differs from its directory (kinds)
+	"meta.Kind", "[]meta.Spec", "*meta.Spec", "map[string]meta.Kind"}
 
 var tagPool = []string{"", `json:"name"`, `json:"name,omitempty" description:"The name. Must be unique."`, `validate:"@string[1,10]"`, `x:"100%"`, `k:"a:b c" j:"d.e.f"`, `weird tag without key`, `yaml:"a.b" json:"-"`, `doc:"it's \"quoted\""`, `path:"example.com/x.Y"`}
 
@@ -129,6 +131,7 @@ import (
 	"io"
 	"time"
 
+	meta "example.com/c18/kinds"
 	"example.com/c18/other"
 )
 
@@ -137,6 +140,7 @@ var (
 	_ io.Reader
 	_ time.Duration
 	_ other.Thing
+	_ meta.Kind
 )
 
 type Inner struct {
@@ -146,6 +150,16 @@ type Inner struct {
 
 type Label string
 
+`
+
+// kindsSrc lives in directory kinds/ but declares package meta.
+const kindsSrc = `package meta
+
+type Kind string
+
+type Spec struct {
+	N int
+}
 `
 
 const otherSrc = `package other
@@ -368,6 +382,7 @@ func (p *prop) runBatch(c core.Case, w *core.Worker, res *core.Result, r *rand.R
 	}
 	defer m.Remove()
 	m.MustWrite("other/other.go", otherSrc)
+	m.MustWrite("kinds/kinds.go", kindsSrc)
 	m.MustWrite("repl/repl.go", replSrc)
 	var osrc strings.Builder
 	osrc.WriteString(originHeader)
@@ -594,6 +609,7 @@ func (p *prop) runNegatives(c core.Case, w *core.Worker, res *core.Result) {
 			return
 		}
 		m.MustWrite("other/other.go", otherSrc)
+		m.MustWrite("kinds/kinds.go", kindsSrc)
 		m.MustWrite("origin/origin.go", originHeader+"type O1 struct {\n\tA int\n\tB string\n}\n")
 		src := "package neg\n\n"
 		if strings.Contains(ng.src, "origin.") {
